@@ -63,10 +63,10 @@ Fixpoint mem_b (x : bytes) (l : list bytes) : bool :=
   | y :: r => bytes_eqb x y || mem_b x r
   end.
 
-Section Dec.
+(* ---- the scalar layer (scalarReflectFromGo on the Go value of one token) *)
+Section DecScalar.
   Variable parse_float : bool -> bytes -> option N.
   Variable parse_time : bytes -> option (Z * Z).
-  Variable env : env.
 
   (* scalarReflectFromGo on the Go value of one token: Ok None is "invalid Value, nil error"
      (setValue then clears the field) *)
@@ -147,6 +147,22 @@ Section Dec.
         end
     end.
 
+End DecScalar.
+
+(* ---- the structure, generic in the scalar layer [dsc] (this family's dec_scalar, or the decoder
+   family's scalar_from_go: the proofs need only the scalar round-trip law) *)
+Section Dec.
+  Variable dsc : scalar_kind -> jvalue -> outcome (option pval).
+  (* the bytes stored for the value member of an Any: the Go code keeps json.Compact of the raw text,
+     which for a compact document is [print v]; the decoder family's token-level model re-prints
+     the tokens canonically *)
+  Variable raw : jvalue -> bytes.
+  (* the Go code detects a repeated key of a scalar/enum map with a set of the keys seen in this
+     object (faithful: false); the decoder family's model also refuses a key the map already holds
+     (true) — the same thing when decoding into a fresh message *)
+  Variable mapchk : bool.
+  Variable env : env.
+
   Definition is_container (j : jvalue) : bool := match j with JObj _ | JArr _ => true | _ => false end.
 
   (* decodeAny's body: "!type" must be a string; at most one other member, taken whole *)
@@ -198,7 +214,7 @@ Section Dec.
       match p_ty p with
       | FScalar k =>
           if is_container j then Err "unexpected token, expected scalar"
-          else obind (dec_scalar k j) (fun v =>
+          else obind (dsc k j) (fun v =>
                  holder (p_path p) m (fun n h =>
                    Ok (match v with
                        | None => msg_del n h
@@ -266,7 +282,7 @@ Section Dec.
                   | _, None => Err "no value found in Any"
                   | Some tn, Some v =>
                       if pb then Err "proto is required for PB Any"
-                      else Ok (msg_put n (VMsg (msg_set false [] 3 (VBytes (print v)) (msg_set false [] 1 (VStr tn) sub))) h1)
+                      else Ok (msg_put n (VMsg (msg_set false [] 3 (VBytes (raw v)) (msg_set false [] 1 (VStr tn) sub))) h1)
                   end))
           | _ => Err "unexpected token, expected {"
           end
@@ -335,7 +351,7 @@ Section Dec.
           match it with
           | FScalar k =>
               if is_container j then Err "unexpected token, expected scalar"
-              else obind (dec_scalar k j) (fun v =>
+              else obind (dsc k j) (fun v =>
                      match v with
                      | None => Err "cannot append nil value"
                      | Some x => dec_items f d it r (acc ++ [x])
@@ -380,14 +396,16 @@ Section Dec.
           match it with
           | FScalar k =>
               if mem_b key seen then Err "key already exists in map"
+              else if mapchk && (match map_get key acc with Some _ => true | None => false end) then Err "key already exists in map"
               else if is_container j then Err "unexpected token, expected scalar"
-              else obind (dec_scalar k j) (fun v =>
+              else obind (dsc k j) (fun v =>
                      match v with
                      | None => Err "cannot set nil value"
                      | Some x => dec_entries f d it r (map_set key x acc) (key :: seen)
                      end)
           | FEnum ref =>
-              if mem_b key seen then Err "key already exists in map" else
+              if mem_b key seen then Err "key already exists in map"
+              else if mapchk && (match map_get key acc with Some _ => true | None => false end) then Err "key already exists in map" else
               match j, lookup env ref with
               | JStr s, Some (SEnum prefix opts) =>
                   match option_by_name prefix opts s with
@@ -442,12 +460,12 @@ Fixpoint jsize (j : jvalue) : nat :=
   | _ => 1%nat
   end.
 
-Definition decode_tree parse_float parse_time (e : env) (root : bytes) (j : jvalue) : outcome msg :=
-  decode_tree_fuel parse_float parse_time e (3 * jsize j + 3) root j.
+Definition decode_tree dsc raw mapchk (e : env) (root : bytes) (j : jvalue) : outcome msg :=
+  decode_tree_fuel dsc raw mapchk e (3 * jsize j + 3) root j.
 
 (* JSONToProto on a text that is one well-formed document *)
-Definition decode_text parse_float parse_time (e : env) (root : bytes) (txt : bytes) : outcome msg :=
+Definition decode_text dsc (e : env) (root : bytes) (txt : bytes) : outcome msg :=
   match strict_parse txt with
-  | Some j => decode_tree parse_float parse_time e root j
+  | Some j => decode_tree dsc print false e root j
   | None => Err "invalid JSON"
   end.
